@@ -191,6 +191,7 @@ package sequence
 //@   log reverseMatcher
 //@   ensures istype(result, reverseMatch)
 //@ func (s *Sequence) newMatcher [C06]
+//@   log newMatcher
 //@   requires s != nil && bq != nil
 //@   modifies *
 //@   ensures result_1 == nil ==> result_0 != nil
@@ -203,3 +204,38 @@ package sequence
 //@   log ToExecutable
 //@   ensures v == nil ==> result == nil
 //@   ensures result != nil ==> v != nil
+
+// newExec (C06): a rule's action is an executable or a wrapping executable (at least one).
+//@ func (s *Sequence) newExec [C06]
+//@   log newExec
+//@   requires s != nil && bq != nil
+//@   modifies *
+//@   ensures result_2 == nil ==> result_0 != nil || result_1 != nil
+//@   ensures result_2 != nil ==> result_0 == nil && result_1 == nil
+
+// newNode (C06): a rule becomes a node with exactly as many matchers as the rule configures — one
+// newMatcher call per configured matcher, in the configured order, each result appended, none
+// dropped — and the rule's action. (The node is private to newNode until it is returned, so the
+// matcher constructors cannot touch it.)
+//@ func (s *Sequence) newNode [C06]
+//@   log newNode
+//@   requires s != nil && bq != nil
+//@   modifies *
+//@   ensures result_1 == nil ==> result_0 != nil && fresh(result_0) && len(result_0.Matches) == len(r.Matches) && calls(newMatcher) == len(r.Matches)
+//@   ensures result_1 == nil ==> calls(newExec) == 1 && result_0.E == ret(newExec, 0, 0) && result_0.RE == ret(newExec, 0, 1) && (result_0.E != nil || result_0.RE != nil)
+//@   ensures result_1 != nil ==> result_0 == nil
+//@   loop 0:
+//@     invariant s != nil && bq != nil && n != nil && fresh(n) && private(n) && 0 <= it0
+//@     invariant len(n.Matches) == it0
+//@     invariant calls(newMatcher) == it0 && calls(newExec) == 0
+//@     each iter_calls(newMatcher) == 1 && iter_ret(newMatcher, 0, 1) == nil && iter_arg(newMatcher, 0, 3) == ri && iter_arg(newMatcher, 0, 4) == athead(it0)
+//@     each n.Matches[athead(it0)] == iter_ret(newMatcher, 0, 0)
+
+// buildChain (C06): the chain has one node per rule, in the configured order.
+//@ func (s *Sequence) buildChain [C06]
+//@   requires s != nil && bq != nil
+//@   modifies *
+//@   ensures result == nil ==> len(s.chain) == len(rs)
+//@   loop 0:
+//@     invariant s != nil && bq != nil && 0 <= it0 && len(c) == it0 && it0 <= len(rs)
+//@     each iter_calls(newNode) == 1 && iter_ret(newNode, 0, 1) == nil && iter_arg(newNode, 0, 3) == athead(it0) && c[athead(it0)] == iter_ret(newNode, 0, 0)
